@@ -106,15 +106,18 @@ theorem random_place_valid (c : RandomAgents) (n : Nat) (e : MEnv) (g : Xoro)
         · simp at h
 
 /-- **Every instruction a random agent emits is valid**: it either leaves the environment alone,
-or queues a cancellation of the order it holds — which is Active as it looks —, or submits exactly
-one limit order whose price is `tick · tick_size` with `tick` inside the configured tick range (so
-on the grid), whose volume is inside the configured volume range, carrying its own trader id. -/
+or queues a cancellation of the order it holds — which is Active as it looks —, or — only when the order it
+holds is NOT Active as it looks, so that a trader never has two live orders of its own making —
+submits exactly one limit order whose price is `tick · tick_size` with `tick` inside the configured
+tick range (so on the grid), whose volume is inside the configured volume range, carrying its own
+trader id. -/
 theorem random_update_valid (c : RandomAgents) (n : Nat) (cur : Option Nat) (e : MEnv) (g : Xoro)
     (o : Option Nat) (e' : MEnv) (g' : Xoro) (h : c.updateOne n cur e g = some (o, e', g')) :
     (e' = e ∧ o = cur) ∨
     (∃ id, cur = some id ∧ RandomAgents.orderStatus e c.asset id = some .active ∧
        e' = e.cancelOrder c.asset id ∧ o = none) ∨
-    (∃ side tick vol id, c.tickLo ≤ tick ∧ tick < c.tickHi ∧ c.volLo ≤ vol ∧ vol < c.volHi ∧
+    (RandomAgents.holdsActive e c.asset cur = false ∧
+     ∃ side tick vol id, c.tickLo ≤ tick ∧ tick < c.tickHi ∧ c.volLo ≤ vol ∧ vol < c.volHi ∧
        e.placeOrder c.asset side vol n (some (tick * c.tickSize)) = (e', .ok id) ∧ o = some id) := by
   simp only [RandomAgents.updateOne] at h
   split at h
@@ -128,8 +131,9 @@ theorem random_update_valid (c : RandomAgents) (n : Nat) (cur : Option Nat) (e :
       | some id =>
         refine ⟨id, rfl, ?_, by simpa using h2.symm, h1.symm⟩
         simpa [RandomAgents.holdsActive] using hact
-    · right; right
-      exact random_place_valid c n e _ o e' g' h
+    · rename_i hna
+      right; right
+      exact ⟨by simpa using hna, random_place_valid c n e _ o e' g' h⟩
   · simp only [Option.some.injEq, Prod.mk.injEq] at h
     obtain ⟨h1, h2, _⟩ := h
     left; exact ⟨h2.symm, h1.symm⟩
